@@ -721,6 +721,35 @@ def _check_none_derefs(ctx, fi, producers):  # noqa: C901, PLR0912
                             x in ds for ds in rdefs[base.id].values()) and x is not n]
                         if g.path_exists(d, n, avoid=guards + kills):
                             ok = False
+            if not ok and isinstance(base, ast.Name):
+                # the alias is bound behind a merge: <alias> = <item>.<field>, where <item> is either a TransactionItem that
+                # was just constructed with that field set (nothing to guard) or one that was looked up and whose field is
+                # tested on its own path (`elif item.new is None: continue`)
+                from engine.cfg import _atoms
+                srcs = sources_at(n, base.id) or []
+                ok = bool(srcs)
+                for d, f, t, _chain in srcs:
+                    item = t.rsplit('.', 1)[0]
+                    idefs = g.reaching_defs(item).get(d.id, set())
+                    iguards = []
+                    for b in g.nodes:
+                        if b.kind == 'branch' and b.label in (True, False):
+                            fs = []
+                            _atoms(b.test, b.label, fs)
+                            if (f'{t} is None', False) in fs or (t, True) in fs:
+                                iguards.append(b)
+                    if not idefs:
+                        ok = False
+                    for dj in idefs:
+                        v = _bound_value(dj, item)
+                        if isinstance(v, ast.Call) and call_name(v) == 'TransactionItem':
+                            pos = {'old': 0, 'new': 1}[f]
+                            arg = v.args[pos] if len(v.args) > pos else next((k.value for k in v.keywords if k.arg == f), None)
+                            if arg is not None and not (isinstance(arg, ast.Constant) and arg.value is None) and \
+                                    not (isinstance(arg, ast.Name) and arg.id in cand):
+                                continue   # constructed with the field set
+                        if g.path_exists(dj, d, avoid=iguards + [x for x in idefs if x is not dj]):
+                            ok = False
             ctx.ob('C03.R3', f'deref {unparse(a)}', ok,
                    f'{unparse(a)}: guarded against {txt} being None' if ok else
                    f'{unparse(a)} dereferences TransactionItem.{field} although producers store None there '
